@@ -104,6 +104,54 @@ def asm_source(sym: str) -> str:
             '    .section .note.GNU-stack,"",@progbits\n')
 
 
+FAIL_STAGES = ['early', 'after-targets', 'after-tests', 'after-tests-missing-dependency', 'version-mismatch']
+FAIL_VIAS = ['subproject', 'dependency-fallback']
+
+
+def failing_subproject(name: str, marker: str, stage: str, via: str) -> T.Tuple[T.Dict[str, str], str]:
+    """An OPTIONAL subproject that is disabled because it fails at `stage`; every target, output, test and alias
+    it declares carries `marker` in its name.  Returns (files relative to the parent's source root, the line
+    for the parent's meson.build).  The parent must configure; nothing named `marker` may reach build.ninja."""
+    M = marker
+    if stage == 'version-mismatch':
+        # dependency(version:, fallback:) checks the version of the dependency object after the subproject was
+        # configured and merged (the subproject itself succeeded); only subproject(version:) disables it
+        via = 'subproject'
+    L = [f"project({mstr(name)}, 'c', version: '1.0')", "py = find_program('python3')"]
+    if stage == 'early':
+        L.append(f"error('{M} fails before declaring anything')")
+    L += [f"{M}_exe = executable('{M}_helper', 'm.c')",
+          f"{M}_lib = library('{M}_lib', 'l.c')",
+          f"{M}_ct = custom_target('{M}_ct', output: ['{M}_out.txt', '{M} o$2.dat'], command: [py, '-c', 'pass'], build_by_default: true)",
+          f"{M}_nd = executable('{M}_nd', 'm.c', build_by_default: false)",
+          f"{name}_dep = declare_dependency(link_with: {M}_lib)"]
+    if stage == 'after-targets':
+        L.append(f"error('{M} fails after declaring targets')")
+    L += [f"test('{M}_test', {M}_exe, args: [{M}_ct], depends: [{M}_nd])",
+          f"test('{M}_test2', {M}_nd)",
+          f"benchmark('{M}_bench', {M}_nd, args: [{M}_ct[1]], depends: {M}_lib)",
+          f"alias_target('{M}_alias', {M}_exe)",
+          f"run_target('{M}_run', command: [py, '-c', 'pass'], depends: {M}_ct)",
+          f"install_data('m.c', install_dir: 'share/{M}')",
+          f"configure_file(output: '{M}_cfg.h', configuration: {{'X': 1}})",
+          f"executable('{M}_inst', 'm.c', install: true)"]
+    if stage == 'after-tests':
+        L.append(f"error('{M} fails after registering tests')")
+    elif stage == 'after-tests-missing-dependency':
+        L.append(f"dependency('c04-no-such-dependency-{M.lower()}')")
+    files = {f'subprojects/{name}/meson.build': '\n'.join(L) + '\n',
+             f'subprojects/{name}/m.c': 'int main(void) { return 0; }\n',
+             f'subprojects/{name}/l.c': f'int {M}_fn(void) {{ return 0; }}\n'}
+    ver = ", version: '>=99'" if stage == 'version-mismatch' else ''
+    if via == 'dependency-fallback':
+        line = (f"{name}_d = dependency('c04-not-installed-{name}', fallback: [{mstr(name)}, '{name}_dep'], "
+                f"required: false{ver})\nassert(not {name}_d.found(), '{name} must be disabled')")
+    else:
+        line = (f"{name}_s = subproject({mstr(name)}, required: false{ver})\n"
+                f"assert(not {name}_s.found(), '{name} must be disabled')")
+    return files, line
+
+
 class Item:
     """One generated target."""
 
@@ -216,6 +264,7 @@ class ProjectGen:
         self.flat_paths: T.Dict[str, str] = {}
         self.flat_collision = False
         self.flat_dup_budget = 1 if rng.random() < 0.15 else 0
+        self.failed_subprojects: T.List[dict] = []
         # per project ('' main, 'sp'): directory tree and per directory pre/post line lists
         self.dirs: T.Dict[str, T.List[str]] = {}
         self.body: T.Dict[T.Tuple[str, str, str], T.List[str]] = {}
@@ -831,6 +880,25 @@ class ProjectGen:
         # tests at the end of each project's root
         for sp in self.dirs:
             self.gen_tests(sp, (sp, '', 'post'))
+        # optional subprojects that get disabled because they fail somewhere (before any target, after targets,
+        # after test()/benchmark()/alias/install registrations, on the version check)
+        if r.random() < 0.35:
+            for k in range(r.randint(1, 2)):
+                stage = r.choice(FAIL_STAGES)
+                via = r.choice(FAIL_VIAS)
+                name, marker = f'optf{k}', f'FAILSP{k}'
+                if stage == 'version-mismatch':
+                    via = 'subproject'
+                files, line = failing_subproject(name, marker, stage, via)
+                self.files.update(files)
+                where = r.choice([('', '', 'pre'), ('', '', 'post')])
+                if where[2] == 'pre':
+                    self.body[where].insert(0, line)
+                else:
+                    self.body[where].append(line)
+                self.failed_subprojects.append({'name': name, 'marker': marker, 'stage': stage, 'via': via})
+                self.features.add('optional-subproject-fails:' + stage)
+                self.features.add('optional-subproject-via:' + via)
         self.emit()
 
     def emit(self) -> None:
@@ -857,6 +925,7 @@ class ProjectGen:
         return {'targets': [it.desc() for it in self.items], 'tests': self.tests,
                 'features': sorted(self.features), 'flat_collision': self.flat_collision,
                 'collision': None, 'has_subproject': self.with_sp,
+                'failed_subprojects': self.failed_subprojects,
                 'dirs': {k: v for k, v in self.dirs.items()}}
 
 
